@@ -5,6 +5,8 @@ import Rustemo.Driver.Regen
 import Rustemo.Driver.Cli
 import Rustemo.Driver.Resolve
 import Rustemo.Model.Canon
+import Rustemo.Model.CertComplete
+import Rustemo.Model.Core
 import Rustemo.Model.Forest
 /-!
 Line-protocol driver: one request per line on stdin, one answer per line on stdout.
@@ -35,8 +37,28 @@ def handle (st : DState) (line : String) : DState × String :=
     | ["structural", _, _] =>
       (st, if Cert.structural st.dump.grammar st.dump.table (autosOf st.dump.grammar st.dump.table) then "1" else "0")
     | ["lr-total"] => (st, if Cert.lr st.dump.grammar st.dump.table then "1" else "0")
+    | ["c01"] =>
+      let g := st.dump.grammar
+      let t := st.dump.table
+      (st, if Cert.structural g t (autosOf g t) && Cert.complete g t && Cert.acceptStop t then "1" else "0")
+    | ["complete"] => (st, if Cert.complete st.dump.grammar st.dump.table then "1" else "0")
+    | ["complete-parts"] =>
+      let g := st.dump.grammar
+      let t := st.dump.table
+      let c := Canon.mkCtx g
+      let b := fun (x : Bool) => if x then "1" else "0"
+      (st, s!"first={b (Cert.firstOk g c)} closure={b (Cert.closureOk g c t)} trans={b (Cert.transOk g t)} reduce={b (Cert.reduceOk g t)} det={b (Cert.detOk t)} grammar={b (Cert.grammarOk g t)}")
     | ["noshiftstop"] => (st, if Cert.noShiftStop st.dump.table then "1" else "0")
     | _ => (st, "bad-request")
+  | "tlr" =>
+    -- token-level LR parser (Model/Core.lean `tparse`) on a comma separated list of token kinds
+    let w := if rest.trimAscii.toString == "-" then [] else (rest.trimAscii.toString.splitOn ",").map natOf
+    let r := tparse st.dump.grammar st.dump.table w (1000 + 50 * w.length)
+    (st, match r with
+      | .accept _ => "accept"
+      | .error k _ => s!"error {w.length - k}"
+      | .panic s => "panic " ++ s
+      | .fuel => "fuel")
   | "cover" =>
     match fields rest with
     | [s0, aug, rn] =>
